@@ -66,6 +66,34 @@ Theorem C03_seal_then_verify_fresh_tree : forall Hb matches C cdig ser kids h0 r
 Proof. exact fresh_create_then_verify. Qed.
 Print Assumptions C03_seal_then_verify_fresh_tree.
 
+(* DETECTION, relative to the loaded histories and whatever the tree looks like now: an altered file is named and gives 11;
+   an unrecorded file is named and gives 21 unless something was altered; a recorded path that is neither visited nor
+   ignored is named and gives a non-zero code -- 10 unless 11 / 21 take precedence *)
+Theorem C03_altered_file_detected : forall Hb matches C cdig t hs ipats ifile p c e r,
+  load C cdig t = inl hs ->
+  In (p, c) (ev_files (events matches C (set_patterns (latest_patterns (lh_gens (root_hist hs))) ipats (pattern_file_lines ifile)) [] t)) ->
+  reference hs p = Some e -> e_digest e <> digest_text Hb (e_fmt e) c ->
+  verify_result Hb matches C cdig false t ipats ifile = Some r ->
+  vr_code r = 11%Z /\ In p (vr_mismatch r).
+Proof. exact altered_file_detected. Qed.
+Print Assumptions C03_altered_file_detected.
+Theorem C03_new_file_detected : forall Hb matches C cdig t hs ipats ifile p c r,
+  load C cdig t = inl hs ->
+  In (p, c) (ev_files (events matches C (set_patterns (latest_patterns (lh_gens (root_hist hs))) ipats (pattern_file_lines ifile)) [] t)) ->
+  reference hs p = None ->
+  verify_result Hb matches C cdig false t ipats ifile = Some r ->
+  In p (vr_new r) /\ (vr_code r = 11%Z \/ vr_code r = 21%Z) /\ (vr_mismatch r = [] -> vr_code r = 21%Z).
+Proof. exact new_file_detected. Qed.
+Print Assumptions C03_new_file_detected.
+Theorem C03_missing_entry_detected : forall Hb matches C cdig t hs ipats ifile q r,
+  load C cdig t = inl hs ->
+  let spec := set_patterns (latest_patterns (lh_gens (root_hist hs))) ipats (pattern_file_lines ifile) in
+  In q (expected_paths hs) -> ~ In q (visited (events matches C spec [] t)) -> ignored matches spec q = false ->
+  verify_result Hb matches C cdig false t ipats ifile = Some r ->
+  In q (vr_missing r) /\ vr_code r <> 0%Z /\ (vr_mismatch r = [] -> vr_new r = [] -> vr_code r = 10%Z).
+Proof. exact missing_entry_detected. Qed.
+Print Assumptions C03_missing_entry_detected.
+
 (* the exit codes named by the property: obligations on the constants regenerated from errors.py *)
 Theorem C03_codes : exit_completeness = 10%Z /\ exit_verification_failed = 11%Z /\ exit_new_files_found = 21%Z /\ exit_single_file_not_found = 20%Z.
 Proof. repeat split; reflexivity. Qed.
